@@ -24,6 +24,8 @@ type sinker interface {
 type snapshotTypeController interface {
 	DueNext() (Type, error)
 	SetDueNext(Type) error
+	FullNeededToken() (string, bool)
+	ClearFullNeeded(token string) error
 }
 
 // Sink is a sink for writing snapshot data to a Snapshot store.
@@ -55,6 +57,12 @@ type Sink struct {
 
 	// afterClose, when non-nil, is called once Close has installed the snapshot.
 	afterClose func() error
+
+	// fullNeededToken identifies the full-snapshot requirement that was in force when
+	// the content of this snapshot was captured (hasFullNeededToken is false if there
+	// was none). Only that requirement is cleared when the snapshot is installed.
+	fullNeededToken    string
+	hasFullNeededToken bool
 
 	// fatalFn is called when Close encounters an error during an incremental
 	// snapshot. In production this terminates the process to avoid data
@@ -94,7 +102,19 @@ func (s *Sink) Open() error {
 	if err := os.MkdirAll(s.snapTmpDirPath, 0755); err != nil {
 		return err
 	}
+	// Unless the creator of the snapshot says otherwise (SetFullNeededToken), the
+	// snapshot's content is no older than this sink.
+	if s.stc != nil {
+		s.fullNeededToken, s.hasFullNeededToken = s.stc.FullNeededToken()
+	}
 	return nil
+}
+
+// SetFullNeededToken tells the sink which full-snapshot requirement was in force
+// when the content of the snapshot was captured, if that was before the sink was
+// created. See Store.FullNeededToken.
+func (s *Sink) SetFullNeededToken(token string, ok bool) {
+	s.fullNeededToken, s.hasFullNeededToken = token, ok
 }
 
 // SetAfterClose registers a function which Close calls once the snapshot has been
@@ -275,9 +295,13 @@ func (s *Sink) Close() (retErr error) {
 		return fmt.Errorf("failed to rename snapshot directory: %v", err)
 	}
 
-	if s.stc != nil {
-		if err := s.stc.SetDueNext(Incremental); err != nil {
-			return fmt.Errorf("failed to set due next to incremental: %v", err)
+	// Only a full snapshot can satisfy a full-snapshot requirement, and only the
+	// requirement that was in force when its content was captured: one raised since
+	// then (a database load applied while this snapshot was being persisted) refers
+	// to a database this snapshot does not contain, and must stay.
+	if s.stc != nil && s.localWALDir == "" && s.hasFullNeededToken {
+		if err := s.stc.ClearFullNeeded(s.fullNeededToken); err != nil {
+			return fmt.Errorf("failed to clear full snapshot requirement: %v", err)
 		}
 	}
 	if err := fsutil.SyncDirMaybe(s.dir); err != nil {
